@@ -211,7 +211,14 @@ pub fn solve_real_lp_problem_micro_lp(lp: &LinearModel) -> Result<LpSolution<f64
                     },
                 })
                 .collect::<Vec<_>>();
-            let coeffs = assignment.iter().map(|v| v.value).collect();
+            let coeffs: Vec<f64> = assignment.iter().map(|v| v.value).collect();
+            // on badly scaled rows the backend can hand back a point that
+            // violates them: that is no solution
+            if !crate::solvers::common::point_satisfies_model(lp, &coeffs) {
+                return Err(SolverError::Other(
+                    "MicroLP returned a point that violates the model".to_string(),
+                ));
+            }
             let constraints = make_constraints_map_from_assignment(lp, &coeffs);
             Ok(LpSolution::new(assignment, obj, constraints))
         }
